@@ -9,8 +9,9 @@ import itertools
 
 
 class Ty:
-    def __init__(self, key, ty, mk, pats=(), needs=()):
+    def __init__(self, key, ty, mk, pats=(), needs=(), ptr=None):
         self.key = key
+        self.ptr = ptr        # the type standing for it in a fn-pointer type (argument-position `impl Trait`)
         self.ty = ty
         self.mk = mk          # k, uniq -> (setup_stmt or "", expr, debug string of the whole value, parts)
         self.pats = pats      # destructuring patterns available for this type
@@ -58,7 +59,23 @@ def _opt(k, u):
 
 
 def _arr(k, u):
-    return "", "[%du8, %du8]" % (k % 200, (k + 1) % 200), "[%d, %d]" % (k % 200, (k + 1) % 200), None
+    return "", "[%du8, %du8]" % (k % 200, (k + 1) % 200), "[%d, %d]" % (k % 200, (k + 1) % 200), [str(k % 200), str((k + 1) % 200)]
+
+
+def _into(k, u):
+    return "", "%di32" % (1100 + k), str(1100 + k), None
+
+
+def _dynref(k, u):
+    return "", "&%du8" % (k % 250), str(k % 250), None
+
+
+def _slice(k, u):
+    return "", "&[%du8, %du8][..]" % (k % 200, (k + 7) % 200), "[%d, %d]" % (k % 200, (k + 7) % 200), None
+
+
+def _nest(k, u):
+    return "", "((%di32, %di32), %di32)" % (1200 + k, 1300 + k, 1400 + k), "((%d, %d), %d)" % (1200 + k, 1300 + k, 1400 + k), [str(1200 + k), str(1300 + k), str(1400 + k)]
 
 
 def _refi(k, u):
@@ -75,12 +92,17 @@ TYPES = {
     "bool": Ty("bool", "bool", _bool),
     "str": Ty("str", "&str", _str),
     "String": Ty("String", "::std::string::String", _string),
-    "tup": Ty("tup", "(i32, i32)", _tup, pats=[("({0}, {1})", 2, [0, 1]), ("({0}, _)", 1, [0]), ("(_, _)", 0, [])]),
+    "tup": Ty("tup", "(i32, i32)", _tup, pats=[("({0}, {1})", 2, [0, 1]), ("({0}, _)", 1, [0]), ("(_, _)", 0, []), ("{0} @ (_, _)", 1, [-1])]),
+    # argument-position impl Trait, trait objects, slices, nested patterns
+    "into": Ty("into", "impl ::core::convert::Into<i64> + ::core::fmt::Debug + ::core::marker::Send", _into, ptr="i32"),
+    "dynref": Ty("dynref", "&(dyn ::core::fmt::Debug + ::core::marker::Sync)", _dynref),
+    "slice": Ty("slice", "&[u8]", _slice),
+    "nest": Ty("nest", "((i32, i32), i32)", _nest, pats=[("(({0}, {1}), _)", 2, [0, 1]), ("(({0}, _), {1})", 2, [0, 2]), ("(_, {0})", 1, [2]), ("((_, {0}), ..)", 1, [1])]),
     "N": Ty("N", "N", _n, pats=[("N({0})", 1, [0]), ("N(_)", 0, [])], needs=("N",)),
     "N2": Ty("N2", "N2", _n2, pats=[("N2({0}, _)", 1, [0]), ("N2({0}, {1})", 2, [0, 1]), ("N2(_, {0})", 1, [1])], needs=("N2",)),
     "S": Ty("S", "S", _s, pats=[("S {{ a: {0} }}", 1, [0]), ("S {{ a: _ }}", 0, []), ("S {{ .. }}", 0, [])], needs=("S",)),
     "opt": Ty("opt", "::core::option::Option<i32>", _opt),
-    "arr": Ty("arr", "[u8; 2]", _arr),
+    "arr": Ty("arr", "[u8; 2]", _arr, pats=[("[{0}, {1}]", 2, [0, 1]), ("[{0}, ..]", 1, [0]), ("{0} @ [..]", 1, [-1])]),
     "refi": Ty("refi", "&i32", _refi, pats=[("&{0}", 1, [0])]),
     "mutref": Ty("mutref", "&mut i32", _mutref),
 }
@@ -122,6 +144,8 @@ class Param:
             return "mut " + n[0]
         if self.form == "ref":
             return "ref " + n[0]
+        if self.form == "refmut":
+            return "ref mut " + n[0]
         if self.form == "raw":
             return "r#" + n[0]
         if self.form == "wild":
@@ -147,7 +171,7 @@ class Param:
             return setup, expr, []
         if self.form == "destr":
             idxs = self.ty.pats[self.pat_index][2]
-            return setup, expr, [parts[i] for i in idxs]
+            return setup, expr, [dbg if i == -1 else parts[i] for i in idxs]   # -1: the binding holds the whole value (`x @ ..`)
         return setup, expr, [dbg]
 
 
@@ -336,7 +360,7 @@ class FnSpec:
         else:
             ps.append("&%s%s" % (lt, app_ty))
         for p in self.params:
-            ps.append(self.inst(p.type_text()))
+            ps.append(self.inst(p.type_text()) if (p.generic or not p.ty.ptr) else p.ty.ptr)
         if self.ret == "unit":
             r = ""
         elif self.ret == "generic":
